@@ -339,7 +339,10 @@ def convert_resize_1x1_to_add(op):
     quantization.zero_point = 0
     op.inputs[1] = op.inputs[0]
     op.set_input_tensor(create_const_tensor(name, shape, dtype, values, quantization=quantization), 0)
+    # The shapes of the op can differ from those of its tensors (a bypassed reshape), keep them
+    ifm_shape, ofm_shape = op.ifm_shapes[0], op.ofm_shapes[0]
     op.set_ifm_ofm_shapes()
+    op.ifm_shapes[1], op.ofm_shapes[0] = ifm_shape, ofm_shape
     DebugDatabase.add_optimised(op, op)
 
     return op
@@ -435,6 +438,8 @@ def convert_resize_to_upscale_and_average_pool(op):
     pre_op = op
     outputs = op.outputs
     dtype = op.ifm.dtype
+    # The shapes of the op can differ from those of its tensors (a bypassed reshape), keep them
+    ifm_shape, ofm_shape = op.ifm_shapes[0], op.ofm_shapes[0]
 
     op.attrs.update({"strides": (1, 1, 1, 1), "ksize": (1, 1, 1, 1)})
     op.attrs["padding"] = Padding.SAME  # doesn't really matter as the kernel is 1x1
@@ -467,6 +472,8 @@ def convert_resize_to_upscale_and_average_pool(op):
         pre_op = scaled_op
 
         scaled_op.set_ifm_ofm_shapes()
+        if count == 0:
+            scaled_op.ifm_shapes[0] = ifm_shape
         DebugDatabase.add_optimised(op, scaled_op)
 
     # Last x2 upscaling
@@ -498,6 +505,9 @@ def convert_resize_to_upscale_and_average_pool(op):
     scaled_op.outputs = outputs
     scaled_op.outputs[0].ops = [scaled_op]
     scaled_op.set_ifm_ofm_shapes()
+    if n <= 1:
+        scaled_op.ifm_shapes[0] = ifm_shape
+    scaled_op.ofm_shapes[0] = ofm_shape
     DebugDatabase.add_optimised(op, scaled_op)
 
     return op
@@ -720,10 +730,12 @@ def convert_resizebilinear_to_depthwise_convolutions(op, half_pixel_centers=True
         ofm.ops = []
         elem_size = 2 if ofm.dtype == DataType.int16 else 1
 
-        n, h, w, c = ifm.shape
-        _, _, ow, _ = ofm.shape
+        # The shapes of the op can differ from those of its tensors (a bypassed reshape)
+        ifm_shape, ofm_shape = op.ifm_shapes[0], op.ofm_shapes[0]
+        n, h, w, c = ifm_shape.as_list()
+        _, _, ow, _ = ofm_shape.as_list()
 
-        intermediate_tens = Tensor(ifm.shape, ifm.dtype, "intermediate_tens")
+        intermediate_tens = Tensor(ifm_shape.as_list(), ifm.dtype, "intermediate_tens")
         intermediate_tens.quantization = op.outputs[0].quantization.clone()
         avgpool_op = op
         avgpool_op.name = "rb_init_avgpool"
@@ -739,6 +751,7 @@ def convert_resizebilinear_to_depthwise_convolutions(op, half_pixel_centers=True
         avgpool_op.add_input_tensor(ifm)
         avgpool_op.set_output_tensor(intermediate_tens)
         avgpool_op.set_ifm_ofm_shapes()
+        avgpool_op.ifm_shapes[0] = ifm_shape
         DebugDatabase.add_optimised(op, op)
 
         dw_conv = Operation(Op.DepthwiseConv2DBias, "depthwise_conv")
@@ -796,13 +809,14 @@ def convert_resizebilinear_to_depthwise_convolutions(op, half_pixel_centers=True
                 fixup_bias_tensors(dw_conv, None, None, dtype=DataType.int32)
 
                 dw_conv.set_ifm_ofm_shapes()
+                dw_conv.ofm_shapes[0] = ofm_shape
                 DebugDatabase.add_optimised(op, dw_conv)
 
                 dw_conv = dw_conv.clone(f"_{index}")
         return op
 
-    _, input_height, input_width, _ = op.ifm.shape
-    _, output_height, output_width, _ = op.ofm.shape
+    _, input_height, input_width, _ = op.ifm_shapes[0].as_list()
+    _, output_height, output_width, _ = op.ofm_shapes[0].as_list()
 
     kernels = _compute_kernels(input_height, input_width, output_height, output_width)
     op = _build_convolutions(op, kernels)
